@@ -33,6 +33,13 @@ class Universe:
         self.seen = set()
         self.outer_seen = {}
         self.keep = []  # keep every object alive so ids stay unique
+        self.cloned_ids = set()
+
+    def mark_cloned(self, c):
+        """remember every first-class element inside a clone result"""
+        before = set(self.seen)
+        self.absorb(c)
+        self.cloned_ids |= (self.seen - before)
 
     def add(self, kind, obj):
         if obj is None or id(obj) in self.seen:
@@ -590,6 +597,17 @@ class Interpreter:
                 return None
             return Call(name, None, [I, ip], mk)
 
+        if name == "el.clone_container":
+            cs = U.pool["netlist"] + U.pool["library"] + U.pool["definition"]
+            E = _pick(cs, t)
+            if E is None:
+                return None
+
+            def mkclone():
+                c = E.clone()
+                U.mark_cloned(c)
+                return c
+            return Call(name, E, [], mkclone, kind="clone")
         if name.startswith("el."):
             els = U.first_class()
             E = _pick(els, t)
@@ -604,7 +622,14 @@ class Interpreter:
                     del E.name
                 return Call(name, E, [], f, kind="data", key=".NAME")
             if name == "el.set":
-                v = s if key in (".NAME", "EDIF.identifier") else val
+                if key == "EDIF.identifier":
+                    v = IDENTS_SET[b % len(IDENTS_SET)]
+                elif key == ".NAME":
+                    v = s
+                    if v is None:
+                        return None
+                else:
+                    v = val
 
                 def f():
                     E[key] = v
@@ -646,6 +671,7 @@ STRUCT_OPS = [
 
 NAMES = ["a", "A", "b", "a_1", "c", "a[3]", "x y", "d"]
 IDENTS = ["a", "A", "b", "aB", "Ab", "b_", "&1", "c"]
+IDENTS_SET = IDENTS + ["1a", "a-b", "a b", "", "x" * 256, "B", "AB"]
 KEYS = [".NAME", "EDIF.identifier", "K", "user.k"]
 
 
